@@ -40,6 +40,7 @@ func runC05(c *core.Ctx) {
 	c05Cursors(c)
 	listQueryEscaped(c, "C05.R5")
 	listingIteratorsRerunnable(c, "C05.R6", []string{"ociclient", "ocifilter", "ocimem", "ociunify", "ocidebug"}, 3)
+	iteratorRequestImmutable(c, "C05.R6")
 	pageLimitIsTheRequestedOne(c, "C05.R7")
 }
 
